@@ -116,6 +116,9 @@ def adt_renames(prog):
     out = {}
     for g, sg in sorted(new.items()):
         cands = [f for f, sf in sorted(vanished.items()) if f not in out.values() and f.rsplit("::", 1)[0] == g.rsplit("::", 1)[0] and json.dumps(sf).replace(f, "<Self>") == json.dumps(sg).replace(g, "<Self>")]
+        if not cands:
+            # moved to another module under the same name, same shape
+            cands = [f for f, sf in sorted(vanished.items()) if f not in out.values() and f.rsplit("::", 1)[1] == g.rsplit("::", 1)[1] and json.dumps(sf).replace(f, "<Self>") == json.dumps(sg).replace(g, "<Self>")]
         if len(cands) == 1:
             out[g] = cands[0]
     return out
@@ -188,6 +191,20 @@ def renames(prog, edges=None, funcs=None):
                 same = [f for f in cands if sigs_then.get(f) == sigs_now[g]]
                 if len(same) == 1:
                     cands = same
+            if not cands and "::" in g and not g.startswith("<"):
+                # a trait method of a wrapper type (`impl EventGen for LoopElement`) turned into a free function of the
+                # same module named after the type (`loop_events`): same callers, same result type
+                gm, gl = parent(g), last(g)
+                def _snake(t):
+                    t = re.sub(r"(Element|Container)$", "", t) or t
+                    return re.sub(r"(?<!^)(?=[A-Z])", "_", t).lower()
+                for f in sorted(vanished - set(mapping.values())):
+                    m_ = re.fullmatch(r"<(.+)::([A-Za-z0-9_]+) as (.+)>::([a-z_0-9]+)", f)
+                    if not m_ or m_.group(1) != gm or set(recorded[f]) != mapped_callers:
+                        continue
+                    if gl.startswith(_snake(m_.group(2)) + "_") or gl == _snake(m_.group(2)):
+                        if sigs_now.get(g) and sigs_then.get(f) and sigs_then[f].split("|")[1] == sigs_now[g].split("|")[1]:
+                            cands.append(f)
             if len(cands) == 1 and sigs_now.get(g) and sigs_then.get(cands[0]):
                 # a renaming keeps what the function is: the same result type, or the same parameters
                 a_, b_ = sigs_then[cands[0]].split("|"), sigs_now[g].split("|")
